@@ -111,7 +111,7 @@ class C18Step1D(_Base):
             for op in OPS_1D:
                 yield f"{subject}-{op}", dict(subject=subject, ops=[op])
             if tier != "quick":
-                for first in ("fill", "fill_n", "iadd_same", "imul_pos", "merge2", "set_float"):
+                for first in ("fill", "iadd_same", "merge2", "set_float"):
                     for op in OPS_1D:
                         if op in ("fill_n_empty",):
                             continue
